@@ -539,6 +539,14 @@ def main_wrapper(fn):
     except MachineryError as e:
         print("MACHINERY-FAILURE: %s" % e)
         rc = 2
+    except SystemExit:
+        raise
+    except BaseException as e:
+        # an exception of the harness itself is never a verdict about the code
+        import traceback
+        traceback.print_exc()
+        print("MACHINERY-FAILURE: %s: %s" % (type(e).__name__, str(e)[:300]))
+        rc = 2
     finally:
         shutil.rmtree(WORK, ignore_errors=True)
     sys.exit(rc)
